@@ -245,12 +245,17 @@ func NewUpstream(addr string, opt Opt) (_ Upstream, err error) {
 			quicTransport := &quic.Transport{
 				Conn: conn,
 			}
-			defer closeIfFuncErr(quicTransport)
+			// quic.Transport does not close a socket that it did not create.
+			quicCloser := closerFunc(func() error {
+				quicTransport.Close()
+				return conn.Close()
+			})
+			defer closeIfFuncErr(quicCloser)
 
 			quicConfig := newDefaultClientQuicConfig()
 			quicConfig.MaxIdleTimeout = idleConnTimeout
 
-			addonCloser = quicTransport
+			addonCloser = quicCloser
 			t = &http3.RoundTripper{
 				TLSClientConfig: opt.TLSConfig,
 				QuicConfig:      quicConfig,
@@ -371,6 +376,11 @@ func NewUpstream(addr string, opt Opt) (_ Upstream, err error) {
 		return transport.NewQuicTransport(transport.QuicTransportOpts{
 			DialContext: dialQuicConn,
 			Logger:      logger,
+			// quic.Transport does not close a socket that it did not create.
+			Closer: closerFunc(func() error {
+				t.Close()
+				return uc.Close()
+			}),
 		}), nil
 	default:
 		return nil, fmt.Errorf("unsupported protocol [%s]", addrURL.Scheme)
